@@ -55,6 +55,64 @@ func runC11(c *Ctx) {
 		}
 	}
 
+	// ---- Equal is two-sided ----
+	c.L.Floor("C11.equal", 2)
+	for _, tn := range []string{"MapSet", "SortedSliceSet"} {
+		for _, f := range byType[tn] {
+			if f.Name() != "Equal" || len(f.Params) != 2 {
+				continue
+			}
+			set, other := ssa.Value(f.Params[0]), ssa.Value(f.Params[1])
+			storageOf := func(v ssa.Value, base ssa.Value) bool {
+				ld, ok := v.(*ssa.UnOp)
+				if !ok || ld.Op != token.MUL {
+					return false
+				}
+				fa, ok := ld.X.(*ssa.FieldAddr)
+				return ok && fa.X == base
+			}
+			for _, ret := range core.Returns(f) {
+				v := ret.Results[0]
+				what := "Equal result " + core.Describe(v)
+				if b, isK := core.ConstBool(v); isK {
+					if !b {
+						continue
+					}
+					// a literal true needs both storages to have the same length
+					okLen := false
+					for _, g := range core.GuardsOf(ret) {
+						cond, truth := core.StripNot(g.Cond, g.Truth)
+						if bo, isB := cond.(*ssa.BinOp); isB && ((bo.Op == token.EQL && truth) || (bo.Op == token.NEQ && !truth)) {
+							lx, okx := bo.X.(*ssa.Call)
+							ly, oky := bo.Y.(*ssa.Call)
+							if okx && oky && core.CalleeName(&lx.Call) == "builtin.len" && core.CalleeName(&ly.Call) == "builtin.len" {
+								a, bb := lx.Call.Args[0], ly.Call.Args[0]
+								if (storageOf(a, set) && storageOf(bb, other)) || (storageOf(a, other) && storageOf(bb, set)) {
+									okLen = true
+								}
+							}
+						}
+					}
+					c.check(okLen, "C11.equal", f, "`return true` only when both sets have the same number of elements", ret,
+						"containment in one direction alone makes every superset 'equal' to its subsets")
+					continue
+				}
+				switch x := v.(type) {
+				case *ssa.BinOp:
+					// set == other on the nil path
+					ok := x.Op == token.EQL && ((x.X == set && x.Y == other) || (x.X == other && x.Y == set))
+					c.check(ok, "C11.equal", f, what, ret, "pointer identity when one side is nil")
+				case *ssa.Call:
+					n := core.CalleeName(&x.Call)
+					ok := (strings.HasPrefix(n, "maps.Equal") || strings.HasPrefix(n, "slices.Equal")) && len(x.Call.Args) == 2 &&
+						((storageOf(x.Call.Args[0], set) && storageOf(x.Call.Args[1], other)) || (storageOf(x.Call.Args[0], other) && storageOf(x.Call.Args[1], set)))
+					c.check(ok, "C11.equal", f, what, ret, "maps.Equal / slices.Equal over the two storages compares sizes and elements")
+				default:
+					c.undecided("C11.equal", f, what, ret, "the result is neither a library equality of the two storages nor a length-guarded constant")
+				}
+			}
+		}
+	}
 	// ---- R2 nil receivers ----
 	nilSafe := map[*ssa.Function]bool{}
 	for _, tn := range []string{"MapSet", "SortedSliceSet", "RingBuffer"} {
